@@ -19,13 +19,15 @@ import os
 from vlib import common as C
 
 SIMPLE = ["hash", "fit", "iga", "ide", "mati", "matu", "dist"]
-BIG = []          # filled in below when the composite types are available
+BIG = ["imep", "team", "pop", "summ"]
 REST = {"fit": "-"}          # unread rest after load (hex); default "0a" (the final newline)
 
 COUNTS = {   # objects per type: (quick, thorough)
     "hash": (300, 3000), "fit": (1500, 20000), "iga": (600, 6000), "ide": (600, 6000),
     "mati": (300, 3000), "matu": (300, 3000), "dist": (400, 4000),
+    "imep": (800, 8000), "team": (200, 2000), "pop": (150, 1500), "summ": (300, 3000),
 }
+NEEDS_CTX = {"imep", "team", "pop", "summ"}
 
 
 def inc_hash():
@@ -54,17 +56,40 @@ def parse_obj(line):
     return {"type": head[1], "ints": " ".join(head[2:]), "hex": parts[1], "verdict": parts[2], "tags": tags}
 
 
-def gen_objects(exe, seed, n, typ):
+def parse_tags(txt):
+    tags = {}
+    if txt and txt != "-":
+        for kv in txt.split(","):
+            k, v = kv.split("=")
+            tags[k] = int(v) if v.lstrip("-").isdigit() else v
+    return tags
+
+
+def gen_objects(exe, seed, n, typ, want_pending=False):
+    """Run the generator for one type.  Returns (rc, objects, stderr); every object carries the
+    symbol-table context.  If the process died while reloading an object, `pending` (the tags of
+    the object it died on, from the flushed `pre` line) is returned as a 4th element on request."""
     rc, so, se = C.run_harness(exe, [seed, n, typ], timeout=3000)
-    objs = [parse_obj(l) for l in so.splitlines() if l.startswith("obj ")]
-    return rc, objs, se
+    ctx, objs, pending = "", [], None
+    for l in so.splitlines():
+        if l.startswith("symtab "):
+            ctx = l[7:].strip()
+        elif l.startswith("pre "):
+            t = l.split()
+            pending = {"index": int(t[2]), "tags": parse_tags(t[3] if len(t) > 3 else "-")}
+        elif l.startswith("obj "):
+            o = parse_obj(l)
+            o["ctx"] = ctx if o["type"] in NEEDS_CTX else ""
+            objs.append(o)
+            pending = None
+    return (rc, objs, se, pending) if want_pending else (rc, objs, se)
 
 
 def model_answers(objs):
     lines = []
     for o in objs:
         lines.append(f"save {o['type']} {o['ints']}")
-        lines.append(f"load {o['type']} {o['hex']}")
+        lines.append(f"load {o['type']} {o['hex']} {o['ctx']}")
     out = C.run_driver("c11_driver", lines)
     return [(out[2 * i], out[2 * i + 1]) for i in range(len(objs))]
 
@@ -99,24 +124,28 @@ def run(chk, replay=None):
 
     def work(job):
         seed, n, typ, index = job
-        rc, objs, se = gen_objects(exe, seed, n, typ)
+        rc, objs, se, pending = gen_objects(exe, seed, n, typ, want_pending=True)
         if index is not None:
             objs = [(i, o) for i, o in enumerate(objs) if i == index]
         else:
             objs = list(enumerate(objs))
         ans = model_answers([o for _, o in objs]) if drv_ok else None
-        return job, rc, se, objs, ans
+        return job, rc, se, objs, ans, pending
 
     with cf.ThreadPoolExecutor(min(8, C.NPROC)) as ex:
         results = list(ex.map(work, jobs))
 
     ndis = 0
-    for (seed, n, typ, index), rc, se, objs, ans in results:
+    for (seed, n, typ, index), rc, se, objs, ans, pending in results:
         gen = [seed, n, typ]
         if rc != 0:
-            chk.violation(f"harness c11_ser died (rc={rc}) while generating/saving/reloading {typ} objects "
-                          f"(seed {seed}): {se[-1500:]}", {"gen": gen, "index": len(objs)},
-                          tags={"type": typ, "died": 1})
+            tags = dict(pending["tags"]) if pending else {}
+            tags.update({"type": typ, "died": 1})
+            chk.count("died:" + typ)
+            chk.violation(f"{typ}: the real load() of the bytes just written by save() was stopped by the "
+                          f"sanitizer / crashed (rc={rc}), object tags {tags}: {se[-1500:]}",
+                          {"gen": gen, "index": pending["index"] if pending else len(objs), "type": typ,
+                           "stderr": se[-3000:]}, tags=tags)
         for k, (i, o) in enumerate(objs):
             chk.seen((typ, o["hex"]), nontrivial=len(o["hex"]) > 8)
             chk.count("type:" + typ)
